@@ -6,6 +6,7 @@ use arbitrary::Unstructured;
 use libfuzzer_sys::fuzz_target;
 
 fuzz_target!(|data: &[u8]| {
+    kvh::fuzz_init();
     let mut u = Unstructured::new(data);
     let Ok(t) = u.arbitrary::<(Vec<u8>, u8, Vec<u8>, u8, u8, u8)>() else { return };
     let m = |v: Vec<u8>, cap: usize| -> Vec<u8> { v.into_iter().take(cap).map(|x| x % 3).collect() };
